@@ -221,7 +221,7 @@ pub fn main(args: &[String], which: &str) {
             }
         }
     }
-    if which == "c10" { ignore_family(&mut rep); }
+    if which == "c10" { ignore_family(&mut rep); include_line_family(&mut rep); }
     rep.write(out);
     println!("ok");
 }
@@ -296,5 +296,58 @@ pub fn check_two_runs(c: &PCase, o: &Outcome) -> Result<(), String> {
         (Err(a), Err(b)) => { if err_str(&a) == err_str(&b) { Ok(()) } else { Err(format!("two-step run fails with {} but the concatenated run fails with {}", err_str(&a), err_str(&b))) } }
         (Ok(_), Err(b)) => Err(format!("two-step run succeeds but the concatenated run fails with {}", err_str(&b))),
         (Err(a), Ok(_)) => Err(format!("two-step run fails with {} but the concatenated run succeeds", err_str(&a))),
+    }
+}
+
+
+/// C10 family "an `include shares its line only with whitespace or comments": every combination of what stands before the directive on its
+/// line (nothing, blanks, a comment, the end of a comment that began on an earlier line, a token, a string directly followed by a token (a string or escaped identifier followed by trivia is the known finding D4), a one-line
+/// directive, the last line of a directive that spans several lines — `ifdef…`endif, a macro usage whose argument list contains a newline —,
+/// or the same things one line earlier) and what follows it (line end, end of file, a comment, a token, a directive, a second `include),
+/// in the three ways of naming the file. Returns (name, top text, IncludeLine expected).
+pub fn include_line_cases() -> Vec<(String, String, bool)> {
+    let prevs: &[(&str, bool)] = &[
+        ("w1 ", true), ("\"s\"; ", true), ("/* c */ ", false), ("   ", false), ("", false), ("`celldefine ", true),
+        ("`ifdef A\nx1\n`endif ", true), ("`ifdef UNDEFD\nx1\n`else\n`endif ", true), ("`define M(a) a\n`M(x1\n y1) ", true), ("`define E\n`E ", true),
+        ("/* a\n b */ ", false), ("w1 /* c */ ", true), ("`undef X ", true), ("w1\n", false), ("`ifdef A\nx1\n`endif\n", false),
+        ("`define M(a) a\n`M(x1\n y1)\n", false), ("w1 // c\n", false), ("`define E\n`E\n  ", false), ("`timescale 1ns/1ps ", true), ("`define N(a,b) a b\n`N(x1,\ny1) /* c */ ", true)];
+    let nexts: &[(&str, bool)] = &[
+        ("\n", false), (" w2\n", true), (" // c\n", false), (" /* c */\n", false), (" `celldefine\n", true), (" `include \"f.svh\"\n", true), ("", false),
+        (" /* c */ w2\n", true), ("\nw2", false), (" \"t\";\n", true), (" /* a\n b */ w2\n", false), (" `E2\n", true)];
+    let styles: &[(&str, &str)] = &[("", "\"f.svh\""), ("", "<f.svh>"), ("`define INCF \"f.svh\"\n", "`INCF")];
+    let mut v = vec![];
+    for (pi, (p, pb)) in prevs.iter().enumerate() { for (ni, (n, nb)) in nexts.iter().enumerate() { for (si, (pre, name)) in styles.iter().enumerate() {
+        // `E2 must be defined for the case to be about the line rule only
+        let top = format!("`define E2\n{}{}`include {}{}", pre, p, name, n);
+        v.push((format!("p{}n{}s{}", pi, ni, si), top, *pb || *nb));
+    } } }
+    v
+}
+
+fn include_line_family(rep: &mut Report) {
+    let dir = "linefam";
+    std::fs::create_dir_all(dir).unwrap();
+    std::fs::write(format!("{}/f.svh", dir), "inc_tok\n").unwrap();
+    let mut predefs = crate::api::no_defines(); predefs.insert("A".to_string(), None);
+    for (name, top, bad) in include_line_cases() {
+        let path = format!("{}/{}.sv", dir, name);
+        std::fs::write(&path, &top).unwrap();
+        let inc = vec![PathBuf::from(dir)];
+        let (p2, d2) = (path.clone(), predefs.clone());
+        let r = std::panic::catch_unwind(move || preprocess(PathBuf::from(p2), &d2, &inc, false, false));
+        let desc = format!("--- {}\n{}\n--- f.svh: inc_tok; A defined; IncludeLine expected: {}", path, top, bad);
+        rep.case(desc.as_bytes(), true); rep.count(if bad { "include-line-family:must-reject" } else { "include-line-family:must-splice" });
+        match r {
+            Err(e) => rep.violation(&format!("panic: {}", util::panic_msg(e)), &desc, ""),
+            Ok(Ok((t, _))) => {
+                if bad { rep.violation("an `include that shares its line with something other than whitespace or a comment must be rejected with IncludeLine, but the run succeeded", &desc, t.text()); }
+                else if t.text().matches("inc_tok").count() != 1 { rep.violation("an `include alone on its line (whitespace and comments aside) must splice the file exactly once", &desc, t.text()); }
+            }
+            Ok(Err(e)) => {
+                let es = err_str(&e);
+                if bad { if es != "IncludeLine" { rep.violation(&format!("expected IncludeLine, got {}", es), &desc, ""); } }
+                else { rep.violation(&format!("an `include that shares its line only with whitespace / comments was rejected with {}", es), &desc, ""); }
+            }
+        }
     }
 }
